@@ -147,7 +147,7 @@ from mystic.tools import wrap_bounds, wrap_penalty, reduced
 from mystic.abstract_solver import AbstractSolver
 from mystic.abstract_map_solver import AbstractMapSolver
 
-from numpy import asarray, ravel, isinf
+from numpy import asarray, ravel, seterr
 from collections.abc import Callable as _Callable
 
 class DifferentialEvolutionSolver(AbstractSolver):
@@ -568,8 +568,14 @@ Notes:
         fcalls = len(self._evalmon) - fcalls
         if fcalls: # leverage the evalmon
             self._fcalls[0] += fcalls
-        else: # use trialEnergy, removing 'skipped' evaluations
-            self._fcalls[0] += len(trialEnergy) - isinf(trialEnergy).sum()
+        else: # count the trials, removing evaluations 'skipped' by the bounds
+            fcalls = len(trialEnergy)
+            if self._useStrictRange:
+                settings = seterr(all='ignore')
+                lo, hi = asarray(self._strictMin), asarray(self._strictMax)
+                fcalls -= sum(1 for x in self.trialSolution if any((x<lo)|(x>hi)))
+                seterr(**settings)
+            self._fcalls[0] += fcalls
 
         for candidate in range(self.nPop):
             if trialEnergy[candidate] < self.popEnergy[candidate]:
